@@ -682,6 +682,15 @@ where
     <SC::Pcs as Pcs<SC::Challenge, SC::Challenger>>::Commitment: Sync,
 {
     let current_fp = aggregation_circuit_fingerprint(verification_circuit);
+    #[cfg(p3r_verif)]
+    verif_agg_cache_event(
+        verification_circuit,
+        &current_fp,
+        prep_cache
+            .as_ref()
+            .and_then(|slot| slot.as_ref())
+            .map(|cached| cached.circuit_fingerprint),
+    );
     if let Some(ref mut cache_slot) = prep_cache
         && let Some(cached) = cache_slot.as_ref()
         && cached.circuit_fingerprint == current_fp
@@ -804,6 +813,15 @@ where
     <OutSC::Pcs as Pcs<OutSC::Challenge, OutSC::Challenger>>::Commitment: Sync,
 {
     let current_fp = aggregation_circuit_fingerprint(verification_circuit);
+    #[cfg(p3r_verif)]
+    verif_agg_cache_event(
+        verification_circuit,
+        &current_fp,
+        prep_cache
+            .as_ref()
+            .and_then(|slot| slot.as_ref())
+            .map(|cached| cached.circuit_fingerprint),
+    );
     if let Some(ref mut cache_slot) = prep_cache
         && let Some(cached) = cache_slot.as_ref()
         && cached.circuit_fingerprint == current_fp
@@ -993,4 +1011,33 @@ where
         params,
         prep_cache,
     )
+}
+
+/// Verification-only event (compiled only with `--cfg p3r_verif`): the four size counters read off the
+/// verification circuit, the fingerprint computed for it, and the fingerprint held by the offered cache
+/// slot, at the point where `prove_aggregation_layer[_cross]` decides whether to reuse the slot.
+#[cfg(p3r_verif)]
+fn verif_agg_cache_event<F>(
+    circuit: &Circuit<F>,
+    fp: &AggregationCircuitFingerprint,
+    slot: Option<AggregationCircuitFingerprint>,
+) {
+    if !p3_circuit::verif_trace::enabled() {
+        return;
+    }
+    let f = |x: &AggregationCircuitFingerprint| {
+        alloc::format!(
+            "[{},{},{},{}]",
+            x.witness_count, x.public_flat_len, x.private_flat_len, x.ops_len
+        )
+    };
+    p3_circuit::verif_trace::emit(&alloc::format!(
+        "\"ev\":\"agg_cache\",\"circuit\":[{},{},{},{}],\"fp\":{},\"slot_fp\":{}",
+        circuit.witness_count,
+        circuit.public_flat_len,
+        circuit.private_flat_len,
+        circuit.ops.len(),
+        f(fp),
+        slot.as_ref().map_or_else(|| alloc::string::String::from("null"), f),
+    ));
 }
